@@ -1008,7 +1008,11 @@ fn deduplicate_field_names(fields: &mut [RustField]) {
 
     if *count > 1 {
       let unique = format!("{}_{}", base, *count - 1);
-      if field.original_name == base {
+      // Only the synthetic fields (`entries` for a wildcard entry, `value` for
+      // a key-less entry) have no CDDL key of their own. A real key that
+      // happens to be spelled like the Rust field name (`my_field` next to
+      // `my-field`) must keep its spelling as the serde name.
+      if field.original_name == base && matches!(base.as_str(), "entries" | "value") {
         field.original_name = unique.clone();
       }
       field.name = unique;
